@@ -13,7 +13,7 @@
     ok <tags>
     DIFF <kind> line=<n> <details>        kind ∈ model, spec
 -/
-import Driver.Ops4
+import Driver.Ops5
 import Driver.Kern
 
 open Decimal Driver
@@ -90,7 +90,7 @@ partial def loop (h : IO.FS.Stream) (out : IO.FS.Stream) (st : St) : IO Unit := 
     loop h out { st with env := env, pending := none }
   else if line.startsWith "L " || line.startsWith "O " then
     let toks := (line.drop 2).toString.splitOn " "
-    let step := if line.startsWith "L " then doLoad st.env toks else doOp4 st.env st.ctx toks
+    let step := if line.startsWith "L " then doLoad st.env toks else doOp5 st.env st.ctx toks
     loop h out { st with pending := some step, pendingLine := line, ctx := step.ctx.getD st.ctx }
   else if line.startsWith "K " then
     out.putStrLn (doKern (line.drop 2).toString)
